@@ -920,7 +920,7 @@ fn drive_arrays(out: &mut impl Write, r: &mut Rng, budget: usize, props: &Value,
     while produced < budget {
         let a = rand_arr(r, 12, 6);
         let n = a.len();
-        let choice = r.below(22);
+        let choice = r.below(24);
         let (op, args): (&str, Value) = match choice {
             0 => ("arr.gather", json!({"a": a, "idx": rand_seq(r, n, 9)})),
             1 if n > 0 => ("arr.scatter", json!({"a": a, "idx": (0..n).map(|_| r.below(8)).collect::<Vec<_>>(), "n": 8})),
@@ -929,7 +929,7 @@ fn drive_arrays(out: &mut impl Write, r: &mut Rng, budget: usize, props: &Value,
             4 => ("arr.cumulative_sum", json!({"a": a})),
             5 => ("arr.bincount", json!({"a": a, "size": 7})),
             6 => ("arr.zero", json!({"a": a})),
-            7 if r.coin(1, 4) => {
+            22 | 23 => {
                 // merge orders that are hard for union-find: tournaments (pairs, pairs of pairs, ...), long paths
                 // in both directions, stars, on 8..70 nodes, plus a few stray nodes and edges
                 let n0 = *r.pick(&[8usize, 16, 32, 33, 48, 64]);
